@@ -125,6 +125,51 @@ theorem history_refines (hc : CmpOk cmp) (isEmpty : V → Bool) (ops : List (Op 
   have := Tbl.run_refines cmp isEmpty hc ops (Tbl.init : Tbl K V) (Tbl.init_inv cmp)
   simpa [(init_refines (V := V) cmp).2] using this
 
+/-! ### the instance the current source implements: every put replaces (`replaceAlways`)
+
+The theorems above hold for every "keeps the old value" predicate; the pinned tree kept the old
+value when the new one was empty, which contradicts "get returns the bytes and length most recently
+put" and was repaired. For the code as it is now the ideal put is the plain insert-or-replace: -/
+
+/-- ideal insert-or-replace of the sorted association list -/
+def putExact (k : K) (v : V) (m : List (K × V)) : List (K × V) :=
+  insL cmp Prod.fst (k, v) (fun p => (p.1, v)) m
+
+theorem putSpec_replaceAlways (k : K) (v : V) (m : List (K × V)) :
+    putSpec cmp replaceAlways k v m = putExact cmp k v m := by
+  simp [putSpec, putExact, replaceAlways]
+
+/-- get after put of an equal key returns exactly the value just put - also an empty one -/
+theorem get_after_put (hc : CmpOk cmp) (k k' : K) (v : V) (m : List (K × V)) (hs : Sorted cmp Prod.fst m)
+    (he : cmp k' k = .eq) : getSpec cmp k' (putExact cmp k v m) = some v := by
+  induction m with
+  | nil => simp [putExact, insL, getSpec, lookupL, he]
+  | cons a rest ih =>
+    unfold Sorted at hs; rw [List.pairwise_cons] at hs
+    simp only [putExact, insL, getSpec] at ih ⊢
+    rcases hka : cmp k a.1 with _ | _ | _
+    · simp [lookupL, he]
+    · have : cmp k' a.1 = .eq := hc.eq_trans he hka
+      simp [lookupL, this]
+    · have : cmp k' a.1 = .gt := by
+        have h1 : cmp a.1 k = .lt := by rw [hc.swap, hka]; rfl
+        have h2 : cmp k k' = .eq := by rw [hc.swap, he]; rfl
+        have h3 : cmp a.1 k' = .lt := hc.lt_eq h1 h2
+        rw [hc.swap, h3]; rfl
+      simpa [lookupL, this] using ih hs.2
+
+/-- **the property, for the code as it is**: every history returns what the ideal sorted map with
+    plain insert-or-replace returns -/
+theorem history_refines_exact (hc : CmpOk cmp) (ops : List (Op K V)) :
+    ∃ s', (Tbl.init : Tbl K V).run cmp replaceAlways ops = .ok (s', (specRun cmp replaceAlways [] ops).2) ∧
+      s'.Inv cmp ∧ s'.abs = (specRun cmp replaceAlways [] ops).1 :=
+  history_refines cmp hc replaceAlways ops
+
+-- an empty value replaces a stored one (the defect of the pinned tree, now excluded)
+example : ∃ s s' : Tbl Bytes Bytes, Tbl.init.putobj byteCmp replaceAlways [1] [7] = .ok (s, true) ∧
+    s.putobj byteCmp replaceAlways [1] [] = .ok (s', true) ∧ s'.abs = [([1], [])] := by
+  refine ⟨_, _, rfl, rfl, rfl⟩
+
 -- non-vacuity: a two-key table built by the model satisfies the invariant's premises
 example : ∃ s : Tbl Bytes Bytes, (Tbl.init.putobj byteCmp (·.isEmpty) [1] [7]) = .ok (s, true) ∧ s.abs = [([1], [7])] := by
   refine ⟨_, rfl, rfl⟩
